@@ -60,10 +60,10 @@ theorem runUtt_closed (win : Nat) (skip : Nat → Bool) (s0 : St) (ops post : Li
     (hw : nMfc + 3 * win + 1 ≤ livebuf)
     (hcmn : s0.cmnFrames + offeredOps ops + (if tail then 1 else 0) ≤ cmnWinHwm)
     (hfe : tail = true ∨ (runOps true win skip (startUtt s0) ops).nextId = 0)
-    (hpost : ∀ op, op ∈ post → op.isProcess = false) :
+    (hstream : ∀ op, op ∈ ops → op.isFull = false) (hpost : ∀ op, op ∈ post → op.isProcess = false) :
     Closed win (runUtt true win skip s0 ops tail post) := by
   have hopen := startUtt_open win s0 hwf
-  obtain ⟨o1, o2⟩ := runOps_open win skip (by omega) ops (startUtt s0) hopen (by show s0.cmnFrames + _ ≤ _; omega)
+  obtain ⟨o1, o2⟩ := runOps_open win skip (by omega) ops (startUtt s0) hopen hstream (by show s0.cmnFrames + _ ≤ _; omega)
   have o2' : (runOps true win skip (startUtt s0) ops).cmnFrames ≤ s0.cmnFrames + offeredOps ops := o2
   exact runOps_closed win skip post _ (decEnd_closed win skip _ tail o1 hfe (by omega) hw) hpost
 
@@ -76,10 +76,10 @@ theorem C07_features_canonical (win : Nat) (skip : Nat → Bool) (s0 : St) (ops 
     (hw : nMfc + 3 * win + 1 ≤ livebuf)
     (hcmn : s0.cmnFrames + offeredOps ops + (if tail then 1 else 0) ≤ cmnWinHwm)
     (hfe : tail = true ∨ (runOps true win skip (startUtt s0) ops).nextId = 0)
-    (hpost : ∀ op, op ∈ post → op.isProcess = false) :
+    (hstream : ∀ op, op ∈ ops → op.isFull = false) (hpost : ∀ op, op ∈ post → op.isProcess = false) :
     let sf := runUtt true win skip s0 ops tail post
     sf.searched = (List.range sf.nextId).map fun k => (k, some (canon win sf.nextId k)) :=
-  (runUtt_closed win skip s0 ops post tail hwf hw hcmn hfe hpost).searched_eq
+  (runUtt_closed win skip s0 ops post tail hwf hw hcmn hfe hstream hpost).searched_eq
 
 /-- **frames_searched_const.**  The number of search steps is `M`, the number of cepstral frames the front end
     delivered; nothing is left unsearched and `output_frame = M` in every case. -/
@@ -87,11 +87,11 @@ theorem C07_frames_searched_const (win : Nat) (skip : Nat → Bool) (s0 : St) (o
     (hw : nMfc + 3 * win + 1 ≤ livebuf)
     (hcmn : s0.cmnFrames + offeredOps ops + (if tail then 1 else 0) ≤ cmnWinHwm)
     (hfe : tail = true ∨ (runOps true win skip (startUtt s0) ops).nextId = 0)
-    (hpost : ∀ op, op ∈ post → op.isProcess = false) :
+    (hstream : ∀ op, op ∈ ops → op.isFull = false) (hpost : ∀ op, op ∈ post → op.isProcess = false) :
     let sf := runUtt true win skip s0 ops tail post
     sf.searched.length = sf.nextId ∧ sf.outputFrame = sf.nextId ∧ sf.nFeatFrame = 0 := by
   intro sf
-  have h : Closed win sf := runUtt_closed win skip s0 ops post tail hwf hw hcmn hfe hpost
+  have h : Closed win sf := runUtt_closed win skip s0 ops post tail hwf hw hcmn hfe hstream hpost
   have hc := h.core.cnt
   have hn := h.nff
   exact ⟨by rw [h.searched_eq]; simp, by omega, hn⟩
@@ -104,11 +104,12 @@ theorem C07_chunking_independent (win : Nat) (skip skip' : Nat → Bool) (s0 s0'
     (hcmn' : s0'.cmnFrames + offeredOps ops' + (if tail' then 1 else 0) ≤ cmnWinHwm)
     (hfe : tail = true ∨ (runOps true win skip (startUtt s0) ops).nextId = 0)
     (hfe' : tail' = true ∨ (runOps true win skip' (startUtt s0') ops').nextId = 0)
+    (hstream : ∀ op, op ∈ ops → op.isFull = false) (hstream' : ∀ op, op ∈ ops' → op.isFull = false)
     (hpost : ∀ op, op ∈ post → op.isProcess = false) (hpost' : ∀ op, op ∈ post' → op.isProcess = false)
     (hM : (runUtt true win skip s0 ops tail post).nextId = (runUtt true win skip' s0' ops' tail' post').nextId) :
     (runUtt true win skip s0 ops tail post).searched = (runUtt true win skip' s0' ops' tail' post').searched := by
-  rw [C07_features_canonical win skip s0 ops post tail hwf hw hcmn hfe hpost,
-    C07_features_canonical win skip' s0' ops' post' tail' hwf' hw hcmn' hfe' hpost', hM]
+  rw [C07_features_canonical win skip s0 ops post tail hwf hw hcmn hfe hstream hpost,
+    C07_features_canonical win skip' s0' ops' post' tail' hwf' hw hcmn' hfe' hstream' hpost', hM]
 
 /-- **alignment passes.**  Every `decoder_alignment` call (on a partial result or on the final one) re-reads, in
     order, the canonical feature vectors of the frames below some `p ≤ M`, and (see `alignPass_spec`) puts every
@@ -117,10 +118,10 @@ theorem C07_alignment_canonical (win : Nat) (skip : Nat → Bool) (s0 : St) (ops
     (hw : nMfc + 3 * win + 1 ≤ livebuf)
     (hcmn : s0.cmnFrames + offeredOps ops + (if tail then 1 else 0) ≤ cmnWinHwm)
     (hfe : tail = true ∨ (runOps true win skip (startUtt s0) ops).nextId = 0)
-    (hpost : ∀ op, op ∈ post → op.isProcess = false) :
+    (hstream : ∀ op, op ∈ ops → op.isFull = false) (hpost : ∀ op, op ∈ post → op.isProcess = false) :
     let sf := runUtt true win skip s0 ops tail post
     ∀ l, l ∈ sf.aligned → ∃ p, p ≤ sf.nextId ∧ l = (List.range p).map fun k => (k, some (canon win sf.nextId k)) :=
-  (runUtt_closed win skip s0 ops post tail hwf hw hcmn hfe hpost).aligned_eq
+  (runUtt_closed win skip s0 ops post tail hwf hw hcmn hfe hstream hpost).aligned_eq
 
 /-- **ring_safe, while the utterance is open.**  After every prefix of calls: no modelled buffer access was out
     of range and none of the branches outside the model (fixed-size feature ring, wrap-around of `feat_buf`, live
@@ -128,7 +129,8 @@ theorem C07_alignment_canonical (win : Nat) (skip : Nat → Bool) (s0 : St) (ops
     reaches the end of `feat_buf` (so it never wraps and `acmod_rewind` is always possible); every frame of the
     cepstrum ring has been consumed; all ring indices are in range. -/
 theorem C07_ring_safe_open (win : Nat) (skip : Nat → Bool) (s0 : St) (ops : List Op) (hwf : WF0 s0)
-    (hw : nMfc + 2 * win + 1 ≤ livebuf) (hcmn : s0.cmnFrames + offeredOps ops ≤ cmnWinHwm) :
+    (hw : nMfc + 2 * win + 1 ≤ livebuf) (hcmn : s0.cmnFrames + offeredOps ops ≤ cmnWinHwm)
+    (hstream : ∀ op, op ∈ ops → op.isFull = false) :
     let s := runOps true win skip (startUtt s0) ops
     s.fault = none ∧ s.featOutidx + s.nFeatFrame < s.nFeatAlloc ∧ s.featBuf.length = s.nFeatAlloc ∧
       s.featOutidx = s.outputFrame ∧ s.nMfcFrame = 0 ∧ s.mfcOutidx < nMfc ∧ s.mfcBuf.length = nMfc ∧
@@ -136,7 +138,7 @@ theorem C07_ring_safe_open (win : Nat) (skip : Nat → Bool) (s0 : St) (ops : Li
       (s.state = .started ∨ s.state = .processing) := by
   intro s
   have o1 : Open win s :=
-    (runOps_open win skip hw ops (startUtt s0) (startUtt_open win s0 hwf) (by show s0.cmnFrames + _ ≤ _; omega)).1
+    (runOps_open win skip hw ops (startUtt s0) (startUtt_open win s0 hwf) hstream (by show s0.cmnFrames + _ ≤ _; omega)).1
   obtain ⟨c, hc, hm⟩ := o1.core
   have h1 := hc.cnt
   have h2 := hc.room
@@ -148,12 +150,12 @@ theorem C07_ring_safe (win : Nat) (skip : Nat → Bool) (s0 : St) (ops post : Li
     (hw : nMfc + 3 * win + 1 ≤ livebuf)
     (hcmn : s0.cmnFrames + offeredOps ops + (if tail then 1 else 0) ≤ cmnWinHwm)
     (hfe : tail = true ∨ (runOps true win skip (startUtt s0) ops).nextId = 0)
-    (hpost : ∀ op, op ∈ post → op.isProcess = false) :
+    (hstream : ∀ op, op ∈ ops → op.isFull = false) (hpost : ∀ op, op ∈ post → op.isProcess = false) :
     let sf := runUtt true win skip s0 ops tail post
     sf.fault = none ∧ sf.nFeatFrame ≤ sf.nFeatAlloc ∧ sf.nextId < sf.nFeatAlloc ∧ sf.featBuf.length = sf.nFeatAlloc ∧
       sf.featOutidx = sf.outputFrame ∧ sf.state = .ended := by
   intro sf
-  have h : Closed win sf := runUtt_closed win skip s0 ops post tail hwf hw hcmn hfe hpost
+  have h : Closed win sf := runUtt_closed win skip s0 ops post tail hwf hw hcmn hfe hstream hpost
   have hn := h.nff
   exact ⟨h.core.nofault, by omega, h.core.room, h.core.fbLen, h.core.outIdx, h.st⟩
 
